@@ -286,7 +286,8 @@ def run(tier, replay=None):
     chk.assumptions = ["threshold comparison is exercised with values equal to, below and above the threshold only",
                        "model capacity CAP=4 stands for the code's 16384 (growth rule identical); real growth is "
                        "exercised by the large certificate cases",
-                       "SparseScan.cplabel (needs an HDF5 scan file) not driven"]
+                       "SparseScan.cplabel is bound through SparseScan.tla (synthetic HDF5 scan groups of 1-3 frames): "
+                       "labels, per-frame counts and total must equal the specification's"]
     if replay:
         return run_replay(chk, mods, replay)
 
@@ -325,6 +326,8 @@ def run(tier, replay=None):
     sel = [c for c in allcases if rng.random() < frac]
     replay_asan(chk, sel, "small")
 
+    sparsescan_routes(chk, tier)
+
     # certificates for large images
     recs, meta = certificate_cases(chk, tier, mods)
     validate_certificates(chk, recs, meta)
@@ -340,6 +343,16 @@ def run(tier, replay=None):
             raise common.MachineryError("BUG_SPLAT configuration no longer violates Defined (vacuity)")
         selftest(mods)
     return chk.finish()
+
+
+def sparsescan_routes(chk, tier):
+    """SparseScan.cplabel (frame by frame labelling of a multi-frame scan file, countall offsets): every behaviour of
+    SparseScan.tla's cplabel stages is replayed on the real class; failures of the cplabel routes are C11 violations"""
+    from props import x03
+    runs = [("SparseScan qa (2x3 over {0,1,2}: every single frame, pairs with <= 2 pixels; cplabel stages)", "SparseScan_qa.cfg", 600)]
+    if tier == "thorough":
+        runs.append(("SparseScan t1 (2x3 over {0,1,2}: single frames, pairs with <= 4 pixels; all stages)", "SparseScan_t1.cfg", 3000))
+    x03.bind_routes(chk, "SparseScan.cplabel", runs, "c11ss")
 
 
 def handle_model_violation(chk, name, res):
@@ -361,6 +374,10 @@ def run_replay(chk, mods, path):
         chk.sample(case)
         return chk.finish()
     # large image / sanitizer cases: re-run that part of the check
+    if "sparsescan_case" in case:
+        sparsescan_routes(chk, chk.tier)
+        chk.sample({"replayed": path})
+        return chk.finish()
     if case.get("asan"):
         replay_asan(chk, case.get("near_cases", []), "replay")
     else:
